@@ -549,6 +549,7 @@ def resolve_alias(cls, field):
     return field
 
 
+FRESH_VALUE_PROPERTIES = set()   # (class, property): the getter does not hand out the stored object itself: mutating what it returns changes a temporary
 AUTO_CONTAINERS = set()    # auto-declared attributes initialised with an empty container: opaque, mutator calls on them are not modelled
 AUTO_FIELDS = set()        # (class, field) declared on the fly by the executor (attributes of self no specification mentions)
 FIELD_INVARIANTS = {}      # (owner class, field) -> (fact builder, justification): a field written only by constructors with checked arguments
